@@ -8,9 +8,11 @@ sys.path.insert(0, os.path.dirname(os.path.abspath(__file__)))
 from framework import REPO
 
 TIE = ["Nsq.Tie.ToolsToFile", "Nsq.Tie.ToolsToFileFn"]
-PROPS = ["Nsq.Props.C19", "Nsq.Props.C19Name", "Nsq.Props.C19Disc", "Nsq.Props.C19Ops"]
+PROPS = ["Nsq.Props.C19", "Nsq.Props.C19Name", "Nsq.Props.C19Disc", "Nsq.Props.C19Ops",
+         "Nsq.Props.C19Lines", "Nsq.Props.C19Mono"]   # c19a (audit 7): line-level statement (C5/C4), step-wise no-overwrite + tool runs (C29)
 CORPUS = os.path.join(fw.ROOT, "corpus", "C19")
-HARNESS = ["e8/tofile_test.go", "e8/tofile_names_test.go", "e8/tofile_disc_test.go", "e8/tofile_xdev_test.go", "e8/tofile_giveup_test.go", "e8/stub_nsqd.go"]
+HARNESS = ["e8/tofile_test.go", "e8/tofile_names_test.go", "e8/tofile_disc_test.go", "e8/tofile_xdev_test.go", "e8/tofile_giveup_test.go", "e8/stub_nsqd.go",
+           "e8/tofile_lines_test.go"]   # c19a: line-level replays + probes of fixes F46/F47
 
 
 def build_pair(ctx):
@@ -93,7 +95,14 @@ def run(ctx):
         "go2lean kind `skeleton` (statement skeletons of router/Close/Sync/Write/needsRotation/updateFile/exclusiveRename)",
     ]
     ctx.assumptions += [
-        "single writer: no other process renames or writes the tool's files while it runs",
+        "writers: no other process renames, truncates or overwrites the tool's files while it runs; other processes may create "
+        "new files (Ev.ext) and - plain append mode only - another O_APPEND writer (a second router of the same build: "
+        "--filename-format without <TOPIC>) may append whole records with one write(2) each (Ev.extAppend; that is what fix F46 "
+        "makes every router do; on the tree without F46 two routers sharing a file is the open finding two-routers-one-file)",
+        "fin_owns_line_partial (tree without fix F47, plain append mode): every pre-existing file and every file another process "
+        "drops is empty or ends in \"\\n\" (no writer died inside a record, no short write); unconditional with F47 "
+        "(fin_owns_line_fixed) and in O_EXCL modes (fin_owns_line_excl); refuted without (fin_owns_line_full_false, open "
+        "finding torn-tail-append); a short write(2) is not a model primitive - its effect is a torn tail in the next run's directory",
         "tool_fin_implies_durable_partial: the consumer library does not give up (max_attempts = 0 or attempts <= "
         "max_attempts); with the default max_attempts=5 the full tool-level statement is refuted (open finding "
         "gives-up-after-max-attempts); all router-level theorems are unconditional",
@@ -168,7 +177,7 @@ def run(ctx):
                 if l.startswith("HIST "):
                     _, k, v = l.split()
                     hist[k] = int(v)
-            cc = sorted(set(o.split()[-1] for o in ops if o.startswith("tf conf") and len(o.split()) == 10))
+            cc = sorted(set(o.split()[9] for o in ops if o.startswith("tf conf") and len(o.split()) >= 10))
             ctx.corr["close_clears_out_probe"] = cc   # ["0"]: tree before fix F44, ["1"]: with it (model parameter Cfg.closeClears)
             ctx.corr.setdefault("runs", []).append({"label": label, "histogram": hist,
                                                      "oracle": [l for l in log.splitlines() if l.startswith("ORACLE-DONE")]})
@@ -221,6 +230,9 @@ def run(ctx):
         names_leg(ctx, parent, corr_broken)
         disc_leg(ctx, parent, corr_broken)
         xdev_leg(ctx, parent, corr_broken)
+        # ---- c19a (audit 7, C5/C4): line-level replays on the real FileLogger, probes of fixes F46/F47 ----
+        import c19_lines
+        c19_lines.lines_leg(ctx, parent, corr_broken)
     # known finding replay on the REAL binary: the tool as shipped (router behind go-nsq's handlerLoop)
     if parent and not ctx.replay_in:
         giveup_leg(ctx, parent, corr_broken)
